@@ -25,6 +25,8 @@ NONE = z3.Const("None", Ref)
 XR = z3.Datatype("XR"); XR.declare("mk_xr", ("x_nan", z3.BoolSort()), ("x_inf", z3.IntSort()), ("x_v", z3.RealSort())); XR = XR.create()
 Act = z3.Datatype("Act"); Act.declare("mk_act", ("a_term", Ref), ("a_degree", XR), ("a_impl", Ref)); Act = Act.create()
 cls_of = z3.Function("cls_of", Ref, z3.IntSort())
+alloc = z3.Function("alloc", Ref, z3.IntSort())      # ghost allocation time: objects created by the code under verification are newer than all others
+NOW0 = z3.Int("now0")
 
 BATCH = z3.Int("BATCH")       # ghost: number of rows of a data value (1 = plain scalar processing); always >= 1
 SeqRef, SeqAct, SeqStr, SeqXR = z3.SeqSort(Ref), z3.SeqSort(Act), z3.SeqSort(Str), z3.SeqSort(XR)
@@ -147,7 +149,9 @@ class HPath(Path):
 
 
 class LoopSpec:
-    def __init__(s, inv, elem=None, facts=None, havoc_heap=None, name=None, modifies=None, ghost=None, inst=None):
+    def __init__(s, inv, elem=None, facts=None, havoc_heap=None, name=None, modifies=None, ghost=None, inst=None, cases=None):
+        s.cases = cases              # state machines: [{local: concrete value}] - the loop head and exit are split into one path per case, so that
+                                     # the control variable stays a concrete Python value (bit tests evaluate) and the invariant is a map case -> predicate
         s.inst = inst                # (ex, path, k, seq) -> [z3 Bool]: further instances of a universally quantified invariant (whose goal
                                      # is proved for a skolem index); used ONLY where the invariant is assumed (loop head, loop exit)
         s.ghost = ghost              # (ex, path, k, seq) -> [z3 Bool]: ghost assignments at the end of iteration k (definitions of
@@ -196,6 +200,19 @@ class HeapExec(NumExec):
     def fresh(s, sort, hint="v"):
         s.fresh_n += 1
         return z3.Const(f"{hint}!{s.fresh_n}", sort)
+
+    def now(s, p):
+        if "__now__" not in p.env:
+            p.env["__now__"] = NOW0
+        return p.env["__now__"]
+
+    def allocate(s, p, hint="obj"):
+        """a new object: distinct from None and newer than every object that existed before (ghost `alloc`)"""
+        r = s.fresh(Ref, hint)
+        t = s.now(p)
+        p.pc += [r != NONE, alloc(r) == t]
+        p.env["__now__"] = t + 1
+        return r
 
     # ------------------------------------------------------------------ values
     def wrap(s, kind, t):
@@ -272,7 +289,8 @@ class HeapExec(NumExec):
                     if m and s.src.has_func(m, f"{c}.__len__"):
                         if p is None:
                             raise Unsupported("truthiness through __len__ needs the path")
-                        ln = s.call_inline(p, v, c, "__len__", [], {}, node)
+                        q = p.fork(); q.pc.append(notnone)    # __len__ is only called on an object (None is falsy without it)
+                        ln = s.call_inline(q, v, c, "__len__", [], {}, node)
                         return z3.And(notnone, s.num(ln, node).x.v > 0)
             return notnone
         if isinstance(v, SeqV):
@@ -769,6 +787,8 @@ class HeapExec(NumExec):
                     cur = SeqV(z3.Empty(z3.SeqSort(sort_of(kind))), kind)
                 p.env[f.value.id] = SeqV(z3.Concat(cur.q, z3.Unit(s.unwrap(cur.kind, v, n))), cur.kind)
                 return [(p, None)]
+        if isinstance(n, ast.If) and ast.unparse(n.test) == "settings.debugging":
+            return [(p, None)]            # logging block: dropped by extraction (A-LOG)
         if isinstance(n, ast.If):
             c = z3.simplify(s.truth(s.ev(p, n.test), n, p))
             out = []
@@ -967,7 +987,7 @@ class HeapExec(NumExec):
 
     def havoc(s, p, names, fields, tag):
         for nm in names:
-            if nm in p.env:
+            if nm in p.env and not nm.startswith("__"):
                 p.env[nm] = s.havoc_value(p.env[nm], f"{nm}@{tag}")
                 if isinstance(p.env[nm], Num):
                     p.pc.append(xr.wf(p.env[nm].x))
@@ -1024,6 +1044,8 @@ class HeapExec(NumExec):
         else:
             seq, L = it.q, z3.Length(it.q)
         names = s.assigned_names(n.body) | s.assigned_names([ast.Expr(n.target)])
+        now_entry = s.now(p)
+        names.add("__now__")
         for x in ast.walk(n.target):
             if isinstance(x, ast.Name):
                 names.add(x.id)
@@ -1033,43 +1055,52 @@ class HeapExec(NumExec):
         if spec.modifies is not None:
             user_inv, ent, framed = spec.inv, s.entry[lo], sorted(fields - set(spec.modifies))
             spec = LoopSpec(lambda ex, q, k_, sq: z3.And(user_inv(ex, q, k_, sq), *[q.heap[f] == ent.heap[f] for f in framed]),
-                            facts=spec.facts, havoc_heap=spec.havoc_heap, name=spec.name, ghost=spec.ghost, inst=spec.inst)
+                            facts=spec.facts, havoc_heap=spec.havoc_heap, name=spec.name, ghost=spec.ghost, inst=spec.inst, cases=spec.cases)
         k0 = z3.IntVal(0)
         s.oblige(f"{label}/inv.init", p, z3.And(*((spec.facts(s, p, k0, seq) if spec.facts else []) + [True])) if False else spec.inv(s, p, k0, seq),
                  {"facts": spec.facts(s, p, k0, seq) if spec.facts else []})
-        # arbitrary iteration
+        # arbitrary iteration (one per case of the control variable, if the sidecar splits the loop head)
         k = z3.FreshInt(f"k{lo}")
-        h = p.fork()
-        s.havoc(h, [x for x in names if x in h.env], fields, f"L{lo}")
-        h.pc += [k >= 0, k < L, spec.inv(s, h, k, seq)] + (spec.facts(s, h, k, seq) if spec.facts else []) + (spec.inst(s, h, k, seq) if spec.inst else [])
-        if custom:
-            elem = it.iter_elem(s, h, k)
-        else:
-            idx = (L - 1 - k) if it.rev else k
-            elem = s.wrap(it.kind, seq[idx])
-        if enum:
-            s.assign(h, n.target, (Num(X(xr.F, xr.I0, z3.ToReal(k)), False, True, True), elem))
-        elif custom and isinstance(n.target, ast.Name):
-            h.env[n.target.id] = elem            # a view object of the extension (kept as is)
-        else:
-            s.assign(h, n.target, elem)
-        outs, breaks = [], []
-        for q, sig in s.block([h], n.body):
-            if sig is None or sig[0] == "continue":
-                if spec.ghost:
-                    q.pc += spec.ghost(s, q, k, seq)
-                s.oblige(f"{label}/inv.preserved", q, spec.inv(s, q, k + 1, seq), {"facts": spec.facts(s, q, k + 1, seq) if spec.facts else []})
-            elif sig[0] == "break":
-                breaks.append((q, None))      # leaves the loop from iteration k: execution continues after the loop in this state
+        outs, breaks, after = [], [], []
+        for case in (spec.cases or [None]):
+            ctag = "" if case is None else "[" + ",".join(f"{a_}={b_}" for a_, b_ in case.items()) + "]"
+            h = p.fork()
+            s.havoc(h, [x for x in names if x in h.env], fields, f"L{lo}")
+            if case:
+                h.env.update(case)
+            h.env["__now__"] = z3.FreshInt("now"); h.pc.append(h.env["__now__"] >= now_entry)       # allocation time only grows
+            h.pc += [k >= 0, k < L, spec.inv(s, h, k, seq)] + (spec.facts(s, h, k, seq) if spec.facts else []) + (spec.inst(s, h, k, seq) if spec.inst else [])
+            if custom:
+                elem = it.iter_elem(s, h, k)
             else:
-                outs.append((q, sig))     # return / raise from inside the loop
-        # after the loop
-        a = p.fork()
-        s.havoc(a, [x for x in names if x in a.env], fields, f"L{lo}x")
-        a.pc += [spec.inv(s, a, L, seq)] + (spec.facts(s, a, L, seq) if spec.facts else []) + (spec.inst(s, a, L, seq) if spec.inst else [])
+                idx = (L - 1 - k) if it.rev else k
+                elem = s.wrap(it.kind, seq[idx])
+            if enum:
+                s.assign(h, n.target, (Num(X(xr.F, xr.I0, z3.ToReal(k)), False, True, True), elem))
+            elif custom and isinstance(n.target, ast.Name):
+                h.env[n.target.id] = elem            # a view object of the extension (kept as is)
+            else:
+                s.assign(h, n.target, elem)
+            for q, sig in s.block([h], n.body):
+                if sig is None or sig[0] == "continue":
+                    if spec.ghost:
+                        q.pc += spec.ghost(s, q, k, seq)
+                    s.oblige(f"{label}/inv.preserved{ctag}", q, spec.inv(s, q, k + 1, seq), {"facts": spec.facts(s, q, k + 1, seq) if spec.facts else []})
+                elif sig[0] == "break":
+                    breaks.append((q, None))      # leaves the loop from iteration k: execution continues after the loop in this state
+                else:
+                    outs.append((q, sig))     # return / raise from inside the loop
+            # after the loop
+            a = p.fork()
+            s.havoc(a, [x for x in names if x in a.env], fields, f"L{lo}x")
+            if case:
+                a.env.update(case)
+            a.env["__now__"] = z3.FreshInt("now"); a.pc.append(a.env["__now__"] >= now_entry)
+            a.pc += [spec.inv(s, a, L, seq)] + (spec.facts(s, a, L, seq) if spec.facts else []) + (spec.inst(s, a, L, seq) if spec.inst else [])
+            after.append((a, None))
         if n.orelse:
             raise Unsupported("for-else")
-        return [(a, None)] + breaks + outs
+        return after + breaks + outs
 
     def while_loop(s, p, n):
         raise Unsupported(f"while loop at line {n.lineno}")
